@@ -261,6 +261,25 @@ func ClientSyncStuck(dump string) bool {
 	return waiting && !holder
 }
 
+// callWaitsForHandlers reports a dump in which the goroutine serving ProcessPushPull is
+// blocked waiting for its handlers' replies (in a select or a channel receive, whatever the
+// fan-in is built from).
+func callWaitsForHandlers(dump string) bool {
+	for _, g := range strings.Split(dump, "\n\n") {
+		if !strings.Contains(g, "service.(*OrdaService).ProcessPushPull") {
+			continue
+		}
+		head := g
+		if i := strings.Index(g, "\n"); i > 0 {
+			head = g[:i]
+		}
+		if strings.Contains(head, "[select") || strings.Contains(head, "[chan receive") {
+			return true
+		}
+	}
+	return false
+}
+
 // CallOutcome of a service call under the watchdog.
 type CallOutcome struct {
 	Err      error
@@ -302,7 +321,7 @@ func Guard(watchdog time.Duration, f func(ctx context.Context) error) CallOutcom
 	for i := 0; i < 3; i++ {
 		d := Stacks()
 		out.Dump = d
-		if strings.Contains(d, "ProcessPushPull") && strings.Contains(d, "reflect.Select") && !HandlerAlive(d) {
+		if callWaitsForHandlers(d) && !HandlerAlive(d) {
 			stuck++
 		} else if strings.Contains(d, "PatchDocument") && strings.Contains(d, "chan receive") && !HandlerAlive(d) {
 			stuck++
